@@ -88,6 +88,23 @@ CASES = [
  ("C11", "pkg/localstore/mode_put.go", "func (db *DB) setGC(", [("i", "acc"), ("gcItem", "g")]),
  ("C05", "pkg/crypto/signer.go", "func Recover(", [("btcsig", "compact")]),
  ("C06", "pkg/traversal/traversal.go", "func (s *service) GetChunkHashes(", [("bmtWriter", "bw"), ("ref", "want")]),
+ # rules added in rounds 7-11
+ ("C33", "pkg/settlement/traffic/traffic.go", "func (s *Service) Handshake(", [("cheque", "last"), ("isUser", "signer")]),
+ ("C24", "pkg/topology/kademlia/kademlia.go", "func (k *Kad) RefreshProtectPeer(", [("peer", "list")]),
+ ("C25", "pkg/p2p/libp2p/internal/blocklist/blocklist.go", "func (b *Blocklist) Peers(", [("peers", "out"), ("addr", "ov")]),
+ ("C37", "pkg/chunkinfo/chunkinfodiscover.go", "func (ci *ChunkInfo) updateChunkInfo(", [("vb", "cur"), ("rc", "rootKey")]),
+ ("C37", "pkg/file/joiner/joiner.go", "func (j *joiner) processChunkAddresses(", [("cursor", "pos"), ("sec", "section")]),
+ ("C36", "pkg/keystore/file/key.go", "func decryptData(", [("derivedKey", "dk"), ("cipherText", "ct")]),
+ ("C31", "pkg/settlement/traffic/traffic.go", "func (s *Service) TrafficInfo(", [("cashed", "c"), ("transfer", "owed")]),
+ ("C18", "pkg/statestore/mock/store.go", "func (s *store) Iterate(", [("keys", "ks"), ("val", "cp")]),
+ ("C23", "pkg/boson/boson.go", "func (a Address) IsZero(", [("a", "addr")]),
+ ("C32", "pkg/accounting/accounting.go", "func (a *Accounting) getAccountingPeer(", [("peerData", "rec"), ("retrieve", "stored")]),
+ ("C17", "pkg/retrieval/retrieval.go", "func (s *Service) retrieveChunk(", [("exists", "had")]),
+ ("C07", "pkg/file/joiner/joiner.go", "func (j *joiner) ReadAt(", [("bytesRead", "got")]),
+ ("C15", "pkg/localstore/mode_put.go", "func (db *DB) put(", [("exists", "had"), ("item", "it")]),
+ ("C06", "pkg/encryption/store/decrypt_store.go", "func decryptChunkData(", [("c", "out"), ("length", "n")]),
+ ("C30", "pkg/settlement/traffic/traffic.go", "func (s *Service) PutTransferTraffic(", [("localTraffic", "lt")]),
+ ("C34", "pkg/crypto/signer.go", "func Recover(", [("p", "pub")]),
 ]
 
 def func_range(lines, prefix):
